@@ -185,11 +185,16 @@ class EnumSource(SymSource):
         self.may_raise = inner.may_raise
 
     def fresh_elem(self, it):
+        # the index of an arbitrary element: start + its (ghost) position in the stream
+        pos = it.fresh('enum_pos', IntS)
+        it.assume(pos >= 0)
         i = it.fresh('idx', IntS)
-        it.assume(i >= term(self.start))
+        it.assume(i == term(self.start) + pos)
         e = self.inner.fresh_elem(it)
         self.last_vars = [i] + list(getattr(self.inner, 'last_vars', []))
         self.index = i
+        self.pos = pos
+        it.last_enum = self
         return (SV(i), e)
 
     def on_exhausted(self, it):
